@@ -211,8 +211,15 @@ impl RecordBatchDecoder<'_> {
 
                 let value_offsets = match mode {
                     UnionMode::Dense => {
-                        let offsets: ScalarBuffer<i32> =
-                            self.next_buffer()?.slice_with_length(0, len * 4).into();
+                        let mut offsets = self.next_buffer()?.slice_with_length(0, len * 4);
+                        // Like every other buffer, copy a misaligned offsets buffer into
+                        // an aligned allocation unless alignment is required.
+                        if !self.require_alignment
+                            && offsets.as_ptr().align_offset(std::mem::align_of::<i32>()) != 0
+                        {
+                            offsets = Buffer::from(offsets.as_slice());
+                        }
+                        let offsets: ScalarBuffer<i32> = offsets.into();
                         Some(offsets)
                     }
                     UnionMode::Sparse => None,
